@@ -15,6 +15,8 @@ struct Tr<'u> {
     opaque: Vec<(String, String, Ty)>,
     /// the current request's `ignore_assign`
     req_ignore_assign: Vec<String>,
+    /// effect_list: which argument of the recorded call is the value (`of: {"arg": i}`; None: the call's only argument)
+    effect_arg: Option<usize>,
 }
 
 fn norm(ts: impl ToTokens) -> String {
@@ -97,6 +99,8 @@ impl<'u> Tr<'u> {
                     "bool" => Ok(Ty::Bool),
                     "Duration" => Ok(Ty::Duration),
                     "Option" if targs.len() == 1 => Ok(Ty::Option(Box::new(self.ty(targs[0], self_ty)?))),
+                    // (an owning pointer is erased like a reference)
+                    "Box" if targs.len() == 1 => self.ty(targs[0], self_ty),
                     "Vec" | "VecDeque" if targs.len() == 1 => Ok(Ty::List(Box::new(self.ty(targs[0], self_ty)?))),
                     "BTreeMap" | "IndexMap" | "HashMap" if targs.len() == 2 => {
                         let k = self.ty(targs[0], self_ty)?;
@@ -128,6 +132,20 @@ impl<'u> Tr<'u> {
                         self.named_ty(&name, t.span())
                     }
                 }
+            }
+            // `dyn Trait` for a trait the spec lists as a token
+            Type::TraitObject(to) => {
+                for b in &to.bounds {
+                    if let syn::TypeParamBound::Trait(tb) = b {
+                        if let Some(seg) = tb.path.segments.last() {
+                            let name = seg.ident.to_string();
+                            if self.spec.tokens.iter().any(|o| *o == name) {
+                                return Ok(Ty::Token(name));
+                            }
+                        }
+                    }
+                }
+                self.err(t.span(), format!("unsupported type `{}`", norm(t)))
             }
             _ => self.err(t.span(), format!("unsupported type `{}`", norm(t))),
         }
